@@ -205,8 +205,11 @@ def sweep_case(r, lo, n, idx):
     obs = []
     for i, word in enumerate(range(lo, lo + n)):
         req = X.decode(("wcoil", addr, word))
-        fes[(idx + i) % len(fes)][1](h, req)
-        o = X.observe(h.sent[-1])
+        try:
+            fes[(idx + i) % len(fes)][1](h, req)
+            o = X.observe(h.sent[-1]) if len(h.sent) == 1 else ("Responses-%d" % len(h.sent), 0, [])
+        except Exception:  # noqa: BLE001 — escaping exception = malformed outcome (code 100)
+            o = ("Escaped", 0, [])
         if o[0] == "E":
             k = o[2] if o[1] == 0x85 else 100
         elif o[0] == "WriteSingleCoilResponse" and o[1] == 5 and o[2][0][1] == addr:
@@ -331,19 +334,32 @@ def last_request(desc):
     return reqs[-1] if reqs else None
 
 
+def _j(x):
+    """tuples -> lists, as after a JSON round trip (descs are matched both fresh and from replay files)"""
+    import json
+    return json.loads(json.dumps(x))
+
+
 def classify(suite, desc):
+    """a failing case belongs to a known finding only if it lies in the finding's region AND shows the known
+    behaviour; anything else in the same suites is reported"""
     if suite == "coilwords":
         return F_FC5 if sweep_in_region(desc) else None
     if suite == "defects" and desc.get("defect"):
-        w = last_request(desc)["wire"]
+        it = last_request(desc)
+        w, o = _j(it["wire"]), _j(it["response"])
         if desc["defect"] == F_FC5 and w[0] == "wcoil" and w[2] not in (0, 0xFF00):
-            return F_FC5
+            if o in (["WriteSingleCoilResponse", 5, [["Z", w[1]], ["Z", 0]]], ["E", 0x85, 2]):
+                return F_FC5
         if desc["defect"] == F_FC15 and w[0] == "wcoils" and w[2] > 8 * len(w[4]):
-            return F_FC15
+            if o in (["WriteMultipleCoilsResponse", 15, [["Z", w[1]], ["Z", 8 * len(w[4])]]], ["E", 0x8F, 2]):
+                return F_FC15
         return None
     if suite == "faults" and desc.get("fault_after_set"):
         it = last_request(desc)
-        if it["faulted"] and it["set_done_before_fault"] and it["wire"][0] in ("wcoil", "wreg", "rwm"):
+        w, o = _j(it["wire"]), _j(it["response"])
+        if it["faulted"] and it["set_done_before_fault"] and w[0] in ("wcoil", "wreg", "rwm") \
+                and o == ["E", X.wire_fc(w) | 0x80, 4]:
             return F_FAULT
     return None
 
